@@ -327,7 +327,9 @@ func checkC10(tier string) {
 			logged[m[1]][m[2]] = true
 		}
 		// nothing created or deleted, modes unchanged
-		if d := snapDiff(before, after, func(rel string) bool { return rel == "derived.gen.go" || strings.HasSuffix(rel, ".go") && before[rel].Mode == after[rel].Mode && after[rel].Sum != "" && before[rel].Sum != "" }); len(d) > 0 {
+		if d := snapDiff(before, after, func(rel string) bool {
+			return rel == "derived.gen.go" || strings.HasSuffix(rel, ".go") && before[rel].Mode == after[rel].Mode && after[rel].Sum != "" && before[rel].Sum != ""
+		}); len(d) > 0 {
 			viol("creates-or-deletes-files", strings.Join(d, ", "))
 		}
 		ren := 0
